@@ -830,7 +830,7 @@ func ruleContReqCancelled(c *Ctx, rule string) {
 	cancel := p.Func("internal/imapwire", "ContinuationRequest", "Cancel")
 	if cancel != nil {
 		storesErr, closes := false, false
-		allInstrs(cancel, func(i ssa.Instruction) {
+		deepInstrs(cancel, 2, func(i ssa.Instruction) {
 			if st, ok := i.(*ssa.Store); ok {
 				if r, ok := fieldOf(st.Addr); ok && r.is("ContinuationRequest", "err") {
 					storesErr = true
